@@ -41,6 +41,29 @@ def run(ctx):
         nest = t.count("(!") + t.count("(&") + t.count("(|")
         if nest <= 100 or nest >= 2000:
             reqs.append({"op": "fparse", "cps": [ord(c) for c in t]})
+    # exhaustive sweep: every Unicode scalar value in each kind of description position; anything accepted must be RFC 4512-valid
+    templates = ["({c}=x)", "(a{c}=x)", "(a;{c}=x)", "(:{c}:=x)"] if ctx.tier == "thorough" else ["({c}=x)", "(a{c};b{c}=x)"]
+    from codec import sansldap as _s
+    from sansldap._filter import FilterSyntaxError as _FSE
+    swept = 0
+    for tpl in templates:
+        for cp in range(0x110000):
+            if 0xD800 <= cp <= 0xDFFF:
+                continue
+            t = tpl.replace("{c}", chr(cp))
+            swept += 1
+            try:
+                f = _s.LDAPFilter.from_string(t)
+            except _FSE:
+                continue
+            except BaseException:  # noqa: BLE001
+                pass
+            v, cls = PF.direct_total(t)
+            hist["sweep:" + cls] += 1
+            violations.extend(v)
+            if cp >= 128:
+                reqs.append({"op": "fparse", "cps": [ord(c) for c in t]})
+    hist["sweep:inputs"] = swept
     if len(reqs) > ctx.scale(6000, 60000):
         reqs = reqs[: len(PF.FIXED_TEXTS)] + rng.sample(reqs[len(PF.FIXED_TEXTS):], ctx.scale(6000, 60000))
     disagreements = []
@@ -49,7 +72,7 @@ def run(ctx):
         for i, q, x, y in bad[:20]:
             disagreements.append({"request": {"op": "fparse", "text": "".join(chr(c) for c in q["cps"])[:300]}, "impl": x, "model": y})
     return {
-        "evaluations": len(texts),
+        "evaluations": len(texts) + swept,
         "distinct_nontrivial": len(distinct),
         "rule": "fixed corner cases (past failures first), every kind of single-character edit (insert/delete/replace with structural characters, "
                 "controls, newline, NUL, Unicode spaces, non-ASCII) of generated RFC 4515 sentences, random text over a structural alphabet, unbalanced and "
